@@ -165,6 +165,38 @@ def shear3Spec (a : Nat) (c r : Nat) : E :=
   else ident c r
 def f_shear3D : Family :=
   { name := "shear3D", kind := .poly, keys := [[0],[1],[2]], nOut := fun _ => 16, spec := fun k => mulEl 4 (shear3Spec (k0 k)) }
+/-- gtx `slerp(x, y, a)` of vectors: `x sin((1−a)α)/sin α + y sin(aα)/sin α`, `α = acos(x·y)`; the only divisor is `sin α` -/
+def vsAlpha : E := .call1 .acos (dot3 v (fun i => v (3 + i)))
+def vsSin : E := .call1 .sin vsAlpha
+def f_vslerp : Family :=
+  { name := "vslerp", kind := .frac, keys := [[]], nOut := fun _ => 3, allowed := fun _ => [vsSin],
+    spec := fun _ j => .add (.mul (v j) (.div (.call1 .sin (.mul (.sub one (v 6)) vsAlpha)) vsSin))
+                            (.mul (v (3 + j)) (.div (.call1 .sin (.mul (v 6) vsAlpha)) vsSin)) }
+/-- `orientation(N, Up)`: the identity when `|N_i − Up_i| ≤ ε` for all three components, otherwise the Rodrigues rotation by `acos(N·Up)` about
+    `normalize(Up × N)` (walk mode; rational check without naming the divisors) -/
+def orN (i : Nat) : E := v i
+def orU (i : Nat) : E := v (3 + i)
+def orAxis (i : Nat) : E :=
+  match i with
+  | 0 => .sub (.mul (orU 1) (orN 2)) (.mul (orN 1) (orU 2))
+  | 1 => .sub (.mul (orU 2) (orN 0)) (.mul (orN 2) (orU 0))
+  | _ => .sub (.mul (orU 0) (orN 1)) (.mul (orN 0) (orU 1))
+def orAngle : E := .call1 .acos (dot3 orN orU)
+def allLeK (e : E) (yes no : Tree) : List E → Tree
+  | [] => yes
+  | d :: ds => .branch (.le zero d) (.branch (.le d e) (allLeK e yes no ds) no) (.branch (.le (.neg d) e) (allLeK e yes no ds) no)
+def f_orientation : Family :=
+  { name := "orientation", kind := .frac, treeMode := true, treeWalk := true, divFree := true, keys := [[]], nOut := fun _ => 16, spec := fun _ _ => zero,
+    specT := fun _ j => allLeK (.konst .eps) (.leaf (ident (j / 4) (j % 4)))
+      (.leaf (rod (cosA orAngle) (sinA orAngle) (nrm3 orAxis) (j / 4) (j % 4))) [.sub (orN 0) (orU 0), .sub (orN 1) (orU 1), .sub (orN 2) (orU 2)] }
+/-- `proj2D/proj3D (M, n) = M · (I − n nᵀ)`, `reflect2D/reflect3D (M, n) = M · (I − 2 n nᵀ)` on the leading d×d block of the (d+1)×(d+1) matrix;
+    key `[d, k]` -/
+def prEl (d k : Nat) (c r : Nat) : E :=
+  let N := d + 1
+  if c < d ∧ r < d then .sub (ident c r) (.mul (.lit k 1) (.mul (v (N * N + c)) (v (N * N + r)))) else ident c r
+def f_projrefl : Family :=
+  { name := "projrefl", kind := .poly, keys := [[2, 1], [3, 1], [2, 2], [3, 2]], nOut := fun k => (k0 k + 1) * (k0 k + 1),
+    spec := fun k => mulEl (k0 k + 1) (prEl (k0 k) (k1 k)) }
 /-- `scaleBias(s, b)` = diag(s, s, s, 1) with last column (b, b, b, 1); `scaleBias(M, s, b) = M · scaleBias(s, b)` -/
 def sbEl (s b : E) (c r : Nat) : E :=
   if c = 3 then (if r < 3 then b else one) else if c = r then s else zero
@@ -188,6 +220,6 @@ def families : List Family :=
    f_gtranslate, f_gscale, f_grotate, f_lookAt, f_lookAt_cfg, f_lookAt_z, f_lookAt_cfg_z,
    f_rotate2, f_rotateAxis, f_rotate3n, f_rotate4n,
    f_translate2d, f_scale2d, f_rotate2d, f_shearX2d, f_shearY2d, f_shearX2D, f_shearY2D,
-   f_shear3D, f_scaleBias, f_scaleBiasM, f_axisAngleMatrix, f_extractMatrixRotation]
+   f_shear3D, f_scaleBias, f_scaleBiasM, f_axisAngleMatrix, f_extractMatrixRotation, f_projrefl, f_vslerp, f_orientation]
 
 end Glm.Spec.C09
